@@ -5,8 +5,8 @@ package main
 import (
 	"go/token"
 	"go/types"
+	"golang.org/x/tools/go/ssa"
 	"strings"
-
 )
 
 // cellInvFor finds the declared invariant for a component.
@@ -101,7 +101,56 @@ type Rule struct{}
 
 type MonitorCtx struct{}
 
-func (fe *FuncEnc) monReturn(f *Frame, st *State, reach Term, res []Term, pos token.Pos)        {}
-func (fe *FuncEnc) monLoopEntry(f *Frame, li *loopInfo, st *State, reach Term, pos token.Pos)   {}
-func (fe *FuncEnc) monLoopHavoc(f *Frame, li *loopInfo, st *State, reach Term)                  {}
-func (fe *FuncEnc) monBackEdge(f *Frame, li *loopInfo, st *State, cond Term, pos token.Pos)     {}
+func (fe *FuncEnc) monReturn(f *Frame, st *State, reach Term, res []Term, pos token.Pos)      {}
+func (fe *FuncEnc) monLoopEntry(f *Frame, li *loopInfo, st *State, reach Term, pos token.Pos) {}
+func (fe *FuncEnc) monLoopHavoc(f *Frame, li *loopInfo, st *State, reach Term)                {}
+func (fe *FuncEnc) monBackEdge(f *Frame, li *loopInfo, st *State, cond Term, pos token.Pos)   {}
+
+// typeInvFor: the declared invariant of objects of a named struct type (by short name pkg.Type).
+func (fe *FuncEnc) typeInvFor(t types.Type) (*CellInv, *types.Named) {
+	n, _, ok := fe.structOfPointer(t)
+	if !ok {
+		return nil, nil
+	}
+	name := fe.eng.sorts.shortTypeName(n)
+	for _, ti := range fe.eng.typeinvs {
+		if ti.Comp == name {
+			return ti, n
+		}
+	}
+	return nil, nil
+}
+
+// publishCheck: when a freshly built object becomes an interface value (the parser hands a node on), its type invariant
+// and the cell invariants of all its fields must hold — fields left at their zero value included.
+func (fe *FuncEnc) publishCheck(f *Frame, x *ssa.MakeInterface, st *State, path Term) {
+	n, stt, ok := fe.structOfPointer(x.X.Type())
+	if !ok {
+		return
+	}
+	if _, isAlloc := x.X.(*ssa.Alloc); !isAlloc {
+		return
+	}
+	so := fe.eng.sorts
+	ref := fe.val(x.X)
+	info := so.structInfo(so.sortOf(n))
+	for i := 0; i < stt.NumFields(); i++ {
+		comp := fieldComp(so, n, stt, i)
+		if ci := fe.cellInvFor(comp); ci != nil {
+			h := fe.comp(st, comp, arrSort(SInt, info.FSorts[i]))
+			t := fe.evalCellInv(ci, tSelect(h, ref), stt.Field(i).Type(), st)
+			fe.emit("cell", "publish "+so.shortTypeName(n)+"."+stt.Field(i).Name(), path, t, ci.Expr.Text, x.Pos())
+		}
+	}
+	if ti, _ := fe.typeInvFor(x.X.Type()); ti != nil {
+		t := fe.evalCellInv(ti, ref, x.X.Type(), st)
+		fe.emit("typeinv", "publish "+so.shortTypeName(n), path, t, ti.Expr.Text, x.Pos())
+	}
+}
+
+func (fe *FuncEnc) typeInvAssume(f *Frame, ref Term, t types.Type, path Term, st *State) {
+	if ti, _ := fe.typeInvFor(t); ti != nil {
+		fe.assume(path, fe.evalCellInv(ti, ref, t, st))
+		fe.assumes["type invariants of syntax-tree nodes are established when the parser builds the node and assumed when the node is inspected; the maps and lists they mention are not modified afterwards"] = true
+	}
+}
